@@ -9,7 +9,12 @@ use serde_json::{json, Value};
 use std::cell::Cell;
 
 pub fn subs() -> Vec<Sub> {
-    vec![Sub { name: "roundtrip", run: run_roundtrip }, Sub { name: "sweep", run: run_sweep }, Sub { name: "canonical", run: run_canonical }]
+    vec![
+        Sub { name: "roundtrip", run: run_roundtrip },
+        Sub { name: "sweep", run: run_sweep },
+        Sub { name: "canonical", run: run_canonical },
+        Sub { name: "canonsweep", run: run_canonical_sweep },
+    ]
 }
 
 fn run_roundtrip(ctx: &Ctx) -> CheckResult {
@@ -72,6 +77,34 @@ fn run_canonical(ctx: &Ctx) -> CheckResult {
             },
         )?;
     }
+    Ok(())
+}
+
+/// Every position x every byte value of valid strings (all-zero, all-ones and random
+/// hashes, with and without prefix): whatever the parser accepts must be canonical.
+fn run_canonical_sweep(ctx: &Ctx) -> CheckResult {
+    let live = Cell::new(true);
+    let st = ctx.stats("canonsweep", &live);
+    for va in ctx.api.variants() {
+        let v = va.v();
+        let mut bases = vec![vec![0u8; v.size()], vec![0x11u8; v.size()]];
+        bases.extend(ctx.sample_values(&format!("canonbase/{}", v.name), ctx.tier.pick(2, 6), &proptest::collection::vec(any::<u8>(), v.size())));
+        for base in bases {
+            for with in [false, true] {
+                let s0 = vmodel::text::encode(v, &base, with);
+                for pos in 0..s0.len() {
+                    for x in 0..=255u8 {
+                        let mut s = s0.clone();
+                        s[pos] = x;
+                        if let Err(m) = case_canonical(va, &s, &st) {
+                            return Err(ctx.violation("canonical", m, json!({"variant": v.name, "text": hex(&s)})));
+                        }
+                    }
+                }
+            }
+        }
+    }
+    ctx.exhaustive("every position x every byte value of valid strings (zero / 0x11 / random hashes, with and without prefix) through parse + re-format");
     Ok(())
 }
 
